@@ -151,7 +151,7 @@ size_t setQosCharacteristicsTLV(void *buffer, size_t offset){
     QosCharacteristicsTLV->TLVType       = tlv_qos_characteristics;
     QosCharacteristicsTLV->TLVLength     = sizeof(uint32_t);
     // QoS flags are in upper 16 bits of 32-bit value
-    uint32_t qosCharacteristics = lltd_htonl((Config_TLV_QOS_L2Fwd | Config_TLV_QOS_PrioTag | Config_TLV_QOS_VLAN) << 16);
+    uint32_t qosCharacteristics = lltd_htonl((uint32_t)(Config_TLV_QOS_L2Fwd | Config_TLV_QOS_PrioTag | Config_TLV_QOS_VLAN) << 16);
     lltd_port_memcpy(base + offset + sizeof(*QosCharacteristicsTLV), &qosCharacteristics, sizeof(qosCharacteristics));
     return sizeof(generic_tlv_t) + sizeof(uint32_t);
 }
